@@ -75,5 +75,77 @@ def mk_atleast(c, repo, cls, name, fam, sign, generated_id, own_bounds=(0, 1), v
     return node
 
 
+_NATIVE = {"env": None}
+
+
 def cur_env():
-    return ctx().env
+    from pyvc.sym import have_ctx
+    if have_ctx():
+        return ctx().env
+    return _NATIVE["env"]
+
+
+def set_native_env(env):
+    _NATIVE["env"] = env
+
+
+# ------------------------------------------------------------------------------------------------------------------
+# concretisation (model -> description of real objects) and native construction (rt side)
+# ------------------------------------------------------------------------------------------------------------------
+
+def _mv(model, term, default=0):
+    v = model.eval(term, model_completion=True)
+    if z3.is_int_value(v):
+        return v.as_long()
+    if z3.is_true(v):
+        return True
+    if z3.is_false(v):
+        return False
+    return default
+
+
+def concretise_children(model, fam, k, env=None, extra_bool=(), extra_int=()):
+    """per child j < k: kind, bounds, truth value under env, flags"""
+    out = []
+    for j in range(k):
+        J = z3.IntVal(j)
+        atom = True if fam.kind == "atom" else False if fam.kind == "compound" else _mv(model, fam.fn("atom", Bo)(J))
+        d = {"kind": "atom" if atom else "compound", "id": f"x{j}" if atom else f"C{j}",
+             "lo": _mv(model, fam.fn("lo")(J)), "hi": _mv(model, fam.fn("hi")(J))}
+        if env is not None:
+            d["tv"] = _mv(model, fam.fn(f"tv@{env.name}")(J))
+        for b in extra_bool:
+            d[b] = _mv(model, fam.fn(b, Bo)(J))
+        for a in extra_int:
+            d[a] = _mv(model, fam.fn(a)(J))
+        out.append(d)
+    return out
+
+
+def build_children(descr):
+    """real puan objects for a list of child descriptors; returns (children, env dict)
+
+    A compound child with truth value tv is Any(leaf) over one boolean leaf set to tv; flags `safe`/`boolleaves`
+    (default True) select an unsafe / non-boolean variant with the same truth value."""
+    import puan
+    import puan.logic.plog as pg
+    children, env = [], {}
+    for d in descr:
+        if d["kind"] == "atom":
+            children.append(puan.variable(d["id"], (d["lo"], d["hi"])))
+            env[d["id"]] = d.get("tv", d["lo"])
+        else:
+            leaf = "l" + d["id"]
+            tv = d.get("tv", 0)
+            safe = d.get("safe", True)
+            bl = d.get("boolleaves", True)
+            lv = puan.variable(leaf, (0, 1) if bl else (0, 2))
+            if safe:
+                node = pg.AtLeast(1, [lv], variable=d["id"])
+                env[leaf] = tv
+            else:
+                inner = pg.AtLeast(1, [lv], variable="I" + d["id"])
+                node = pg.AtLeast(0, [inner], variable=d["id"], sign=-1)
+                env[leaf] = 1 - tv
+            children.append(node)
+    return children, env
